@@ -42,14 +42,20 @@ func (t Translator) FromArrai(v rel.Value) (interface{}, error) {
 			}
 		}
 		if b, ok := v.Get("b"); ok && v.Count() == 1 {
-			switch b.(type) {
+			switch b := b.(type) {
 			case rel.EmptySet:
 				return false, nil
 			case rel.TrueSet:
 				return true, nil
-			default:
-				return b.(rel.GenericSet).IsTrue(), nil
+			case rel.Set:
+				if !b.IsTrue() {
+					return false, nil
+				}
+				if b.Equal(rel.True) {
+					return true, nil
+				}
 			}
+			return nil, errors.Errorf("FromArrai: value in (b: <value>) must be true or false")
 		}
 		return nil, fmt.Errorf("cannot convert tuple %s to an object", v)
 	case rel.Array:
